@@ -371,7 +371,7 @@ def run_fp(tier, seed, group):
     quick = tier == "quick"
     if group == "a":
         return _run_fp_one(tier, seed, group, 53, 560000 if quick else 2400000)
-    cands = dict(b=[11, 9], c=[11, 10])[group] if quick else dict(b=[12, 11], c=[12, 11, 9, 10])[group]
+    cands = dict(b=[11, 9], c=[10, 11])[group] if quick else dict(b=[12, 11], c=[12, 11, 9, 10])[group]
     tried = []
     r = None
     for sb in cands:
